@@ -339,6 +339,72 @@ def waiter_cases(quick):
     return out
 
 
+# ---------------------------------------------------------------- the callback registry (add_callback / remove_callback / handle_callback)
+def run_registry(case):
+    ver, script = case
+
+    async def main(loop):
+        app, ezsp, gw, ncp = await apprig.make_app(loop, ver)
+        base = len(ezsp._callbacks)
+        heard = []
+        ids = {}
+        trace = []
+
+        def mk(h):
+            def cb(name, args):
+                if name == "stackStatusHandler":
+                    heard.append(h)
+            return cb
+        t = ncp.t
+        st = (t.sl_Status.ZIGBEE_NETWORK_OPENED if ver >= 14 else t.EmberStatus.NETWORK_OPENED)
+        for step in script:
+            raised = 0
+            if step[0] == "add":
+                try:
+                    ids[step[1]] = ezsp.add_callback(mk(step[1]))
+                except BaseException:  # noqa
+                    raised = 1
+                trace.append({"a": "add", "h": step[1], "id": str(ids.get(step[1])), "raised": raised})
+            elif step[0] == "remove":
+                if step[1] not in ids:
+                    continue
+                try:
+                    ezsp.remove_callback(ids.pop(step[1]))
+                except BaseException:  # noqa
+                    raised = 1
+                trace.append({"a": "remove", "h": step[1], "raised": raised})
+            else:
+                heard.clear()
+                try:
+                    ncp.callback("stackStatusHandler", [st], now=True)
+                except BaseException:  # noqa
+                    raised = 1
+                await apprig.settle(loop)
+                trace.append({"a": "fire", "heard": list(heard), "raised": raised})
+        trace.append({"a": "end", "left": len(ezsp._callbacks) - base})
+        return trace
+    return vloop.run(main)
+
+
+def registry_scripts(quick):
+    hs = (1, 2, 3)
+    acts = [("add", h) for h in hs] + [("remove", h) for h in hs] + [("fire",)]
+    out = []
+    for n in range(2, 6 if quick else 7):
+        for seq in itertools.product(acts, repeat=n):
+            live, ok = set(), True
+            for a in seq:
+                if a[0] == "add":
+                    ok = ok and a[1] not in live
+                    live.add(a[1])
+                elif a[0] == "remove":
+                    ok = ok and a[1] in live
+                    live.discard(a[1])
+            if ok and any(a[0] == "remove" for a in seq) and seq[-1][0] != "fire":
+                out.append(list(seq) + [("fire",), ("fire",)])
+    return out
+
+
 def sig(meta, v, tr):
     e = tr[v.stuck_at - 1] if v.stuck_at and v.stuck_at <= len(tr) else {}
     outs = ",".join(o["o"] + ":" + str(o.get("res", o.get("name", ""))) for o in e.get("out", [])[:3])
@@ -401,6 +467,15 @@ def run(ctx: Ctx):
                         sig=lambda m, v, tr: f"trace:StatusWaiters:{(tr[v.stuck_at - 1] if v.stuck_at and v.stuck_at <= len(tr) else {}).get('a')}")
     ctx.rule += ("; concurrent waiters: 2..3 tasks inside wait_for_stack_status for up / down in every combination, one possibly joining late, every "
                  "sequence of 2 (3) of {up, down, other status, cancel 1, cancel 2, timeout}, then a re-entering waiter")
+    # the callback registry under every short order of registrations, removals and frames (overlapping list commands, listeners, application)
+    rs = registry_scripts(ctx.quick)
+    rcases = [(ver, sc) for k, sc in enumerate(rs) for ver in ((8, 14) if ctx.quick else (4, 8, 14)) if not ctx.quick or (k + ver) % 4 == 0]
+    rtraces = pmap(run_registry, rcases, chunksize=64)
+    ctx.evaluations += len(rtraces)
+    ctx.distinct_nontrivial += len(rcases)
+    ctx.validate_traces("Trace_CbRegistry", rtraces, metas=[["registry", c[0], [list(x) for x in c[1]]] for c in rcases], label="callback registry",
+                        sig=lambda m, v, tr: f"trace:CbRegistry:{(tr[v.stuck_at - 1] if v.stuck_at and v.stuck_at <= len(tr) else {}).get('a')}")
+    ctx.rule += "; callback registry: every valid order of up to 5 (6) registrations / removals / frames over three registrations, then two frames"
     ctx.exhaustive = True
     ctx.assumptions += ["zigpy.util.Requests shim for the bring-up operation; the harness plays the NCP at frame level (EzspRig-style fake gateway, NcpEzsp encoder)",
                         "listener / callback residue is read from EZSP._stack_status_listeners and EZSP._callbacks (bookkeeping the property names)",
@@ -409,6 +484,11 @@ def run(ctx: Ctx):
 
 def replay(ctx: Ctx, data):
     m = data["replay"]["meta"]
+    if m and m[0] == "registry":
+        tr = run_registry((m[1], [tuple(x) for x in m[2]]))
+        ctx.validate_traces("Trace_CbRegistry", [tr], metas=[m], label="callback registry")
+        ctx.add_sample(tr)
+        return
     if m and m[0] == "waiters":
         tr = run_waiters((m[1], m[2], [tuple(x) for x in m[3]]))
         ctx.validate_traces("Trace_StatusWaiters", [tr], metas=[m], label="concurrent waiters")
